@@ -8,6 +8,7 @@ import (
 	"os"
 	"path/filepath"
 	"regexp"
+	"sort"
 	"strconv"
 	"strings"
 	"syscall"
@@ -24,8 +25,9 @@ import (
 )
 
 type c03Op struct {
-	Kind string  // mkdir create unlink rename stat readlink getpid getppid other fork vfork thread wait sleep
+	Kind string  // mkdir create unlink rename link stat readlink chmod symlink exec getpid getppid other fork vfork thread wait sleep
 	K    int     // marker id (unique per traced op)
+	Form int     // which syscall of the kind's family issues it (c03Forms); 0 is the *at form
 	Name string  // syscall name for "other"
 	Body []c03Op // fork / vfork / thread
 }
@@ -38,6 +40,28 @@ type c03Case struct {
 	Default string         // kill | trace
 	BanRet  int
 	Exit    int
+}
+
+// c03Forms: every path syscall the tracer's dispatch knows on amd64, grouped by the effect the check observes.
+var c03Forms = map[string][]string{
+	"mkdir":    {"mkdirat", "mknodat"},
+	"create":   {"openat", "open", "openat2"},
+	"unlink":   {"unlinkat", "unlink"},
+	"rename":   {"renameat", "rename", "renameat2"},
+	"link":     {"linkat"},
+	"stat":     {"newfstatat", "stat", "lstat", "statx", "access", "faccessat", "faccessat2"},
+	"readlink": {"readlinkat", "readlink"},
+	"chmod":    {"fchmodat", "chmod", "fchmodat2"},
+	"symlink":  {"symlinkat"},
+	"exec":     {"execve", "execveat"},
+}
+
+func c03Sys(op c03Op) string {
+	f := c03Forms[op.Kind]
+	if len(f) == 0 {
+		return op.Kind
+	}
+	return f[op.Form%len(f)]
 }
 
 var c03Others = []string{"getuid", "getgid", "geteuid", "getegid", "sched_yield", "umask", "times", "alarm"}
@@ -61,8 +85,8 @@ func c03GenCase(rt *rapid.T) c03Case {
 			k := rapid.IntRange(0, 19).Draw(rt, label+"kind")
 			switch {
 			case k < 9:
-				kind := rapid.SampledFrom([]string{"mkdir", "create", "unlink", "rename", "stat", "readlink"}).Draw(rt, label+"traced")
-				ops = append(ops, c03Op{Kind: kind, K: nextK})
+				kind := rapid.SampledFrom([]string{"mkdir", "create", "unlink", "rename", "stat", "readlink", "stat", "chmod", "symlink", "link", "exec"}).Draw(rt, label+"traced")
+				ops = append(ops, c03Op{Kind: kind, K: nextK, Form: rapid.IntRange(0, len(c03Forms[kind])-1).Draw(rt, label+"form")})
 				nextK++
 			case k < 11:
 				ops = append(ops, c03Op{Kind: rapid.SampledFrom([]string{"getpid", "getppid"}).Draw(rt, label+"untraced")})
@@ -89,7 +113,7 @@ func c03GenCase(rt *rapid.T) c03Case {
 				ops = append(ops, c03Op{Kind: "wait"})
 				spawned = false
 			default:
-				ops = append(ops, c03Op{Kind: "stat", K: nextK})
+				ops = append(ops, c03Op{Kind: "stat", K: nextK, Form: rapid.IntRange(0, len(c03Forms["stat"])-1).Draw(rt, label+"sform")})
 				nextK++
 			}
 		}
@@ -138,9 +162,9 @@ func c03Run(c c03Case, root string, rec *vh.Recorder) error {
 	// killTyped: the op is decided kill by the handler, or is killed by the filter itself
 	killTyped := func(op c03Op) bool {
 		switch op.Kind {
-		case "rename":
+		case "rename", "link":
 			return c.Decide[op.K] == 2 || (op.K < len(c.Src) && c.Src[op.K] == 2)
-		case "mkdir", "create", "unlink", "stat", "readlink":
+		case "mkdir", "create", "unlink", "stat", "readlink", "chmod", "symlink", "exec":
 			return c.Decide[op.K] == 2
 		case "other":
 			return c.Default == "kill" || c.Other[op.Name] == 2
@@ -157,31 +181,98 @@ func c03Run(c c03Case, root string, rec *vh.Recorder) error {
 			p := fmt.Sprintf("p%d", op.K)
 			switch op.Kind {
 			case "mkdir":
-				f.idx = s.Sys(sysNr["mkdirat"], at, s.Str(m), 0o755)
+				if c03Sys(op) == "mknodat" {
+					f.idx = s.Sys(sysNr["mknodat"], at, s.Str(m), syscall.S_IFREG|0o644, 0)
+				} else {
+					f.idx = s.Sys(sysNr["mkdirat"], at, s.Str(m), 0o755)
+				}
 			case "create":
-				f.idx = s.Sys(sysNr["openat"], at, s.Str(m), syscall.O_CREAT|syscall.O_WRONLY, 0o644)
+				switch c03Sys(op) {
+				case "open":
+					f.idx = s.Sys(sysNr["open"], s.Str(m), syscall.O_CREAT|syscall.O_WRONLY, 0o644)
+				case "openat2":
+					f.idx = s.Sys(sysNr["openat2"], at, s.Str(m), fmt.Sprintf("!how=%d,%d,%d", syscall.O_CREAT|syscall.O_WRONLY, 0o644, 0), 24)
+				default:
+					f.idx = s.Sys(sysNr["openat"], at, s.Str(m), syscall.O_CREAT|syscall.O_WRONLY, 0o644)
+				}
 			case "unlink":
 				if err := os.WriteFile(filepath.Join(root, p), nil, 0o644); err != nil {
 					return vh.Infraf("premake: %v", err)
 				}
-				f.idx = s.Sys(sysNr["unlinkat"], at, s.Str(p), 0)
-			case "rename":
+				if c03Sys(op) == "unlink" {
+					f.idx = s.Sys(sysNr["unlink"], s.Str(p))
+				} else {
+					f.idx = s.Sys(sysNr["unlinkat"], at, s.Str(p), 0)
+				}
+			case "rename", "link":
 				if err := os.WriteFile(filepath.Join(root, p), nil, 0o644); err != nil {
 					return vh.Infraf("premake: %v", err)
 				}
-				f.idx = s.Sys(sysNr["renameat"], at, s.Str(p), at, s.Str(m))
+				switch c03Sys(op) {
+				case "rename":
+					f.idx = s.Sys(sysNr["rename"], s.Str(p), s.Str(m))
+				case "renameat2":
+					f.idx = s.Sys(sysNr["renameat2"], at, s.Str(p), at, s.Str(m), 0)
+				case "linkat":
+					f.idx = s.Sys(sysNr["linkat"], at, s.Str(p), at, s.Str(m), 0)
+				default:
+					f.idx = s.Sys(sysNr["renameat"], at, s.Str(p), at, s.Str(m))
+				}
 			case "stat":
 				if op.K%2 == 0 {
 					if err := os.WriteFile(filepath.Join(root, p), nil, 0o644); err != nil {
 						return vh.Infraf("premake: %v", err)
 					}
 				}
-				f.idx = s.Sys(sysNr["newfstatat"], at, s.Str(p), "!buf", 0)
+				switch c03Sys(op) {
+				case "stat":
+					f.idx = s.Sys(sysNr["stat"], s.Str(p), "!buf")
+				case "lstat":
+					f.idx = s.Sys(sysNr["lstat"], s.Str(p), "!buf")
+				case "statx":
+					f.idx = s.Sys(sysNr["statx"], at, s.Str(p), 0, 0x7ff, "!buf")
+				case "access":
+					f.idx = s.Sys(sysNr["access"], s.Str(p), 0)
+				case "faccessat":
+					f.idx = s.Sys(sysNr["faccessat"], at, s.Str(p), 0)
+				case "faccessat2":
+					f.idx = s.Sys(sysNr["faccessat2"], at, s.Str(p), 0, 0)
+				default:
+					f.idx = s.Sys(sysNr["newfstatat"], at, s.Str(p), "!buf", 0)
+				}
 			case "readlink":
 				if err := os.Symlink(m, filepath.Join(root, p)); err != nil { // dangling; the policy is shown .../m<k>
 					return vh.Infraf("premake: %v", err)
 				}
-				f.idx = s.Sys(sysNr["readlinkat"], at, s.Str(p), "!buf", 100)
+				if c03Sys(op) == "readlink" {
+					f.idx = s.Sys(sysNr["readlink"], s.Str(p), "!buf", 100)
+				} else {
+					f.idx = s.Sys(sysNr["readlinkat"], at, s.Str(p), "!buf", 100)
+				}
+			case "chmod":
+				if err := os.WriteFile(filepath.Join(root, p), nil, 0o644); err != nil {
+					return vh.Infraf("premake: %v", err)
+				}
+				if err := os.Chmod(filepath.Join(root, p), 0o644); err != nil {
+					return vh.Infraf("premake: %v", err)
+				}
+				switch c03Sys(op) {
+				case "chmod":
+					f.idx = s.Sys(sysNr["chmod"], s.Str(p), 0o600)
+				case "fchmodat2":
+					f.idx = s.Sys(sysNr["fchmodat2"], at, s.Str(p), 0o600, 0)
+				default:
+					f.idx = s.Sys(sysNr["fchmodat"], at, s.Str(p), 0o600)
+				}
+			case "symlink":
+				f.idx = s.Sys(sysNr["symlinkat"], s.Str("nowhere"), at, s.Str(m))
+			case "exec":
+				// the target does not exist: an allowed call returns ENOENT and the program goes on
+				if c03Sys(op) == "execveat" {
+					f.idx = s.Sys(sysNr["execveat"], at, s.Str(p), 0, 0, 0)
+				} else {
+					f.idx = s.Sys(sysNr["execve"], s.Str(p), 0, 0)
+				}
 			case "getpid":
 				f.idx = s.Sys(sysNr["getpid"])
 			case "getppid":
@@ -245,7 +336,15 @@ func c03Run(c c03Case, root string, rec *vh.Recorder) error {
 	}
 	s.Add(fmt.Sprintf("exit:%d", c.Exit))
 
-	traced := []string{"execve", "execveat", "mkdirat", "openat", "unlinkat", "renameat", "newfstatat", "readlinkat"}
+	traced := []string{"execve", "execveat"}
+	for _, forms := range c03Forms {
+		for _, n := range forms {
+			if n != "execve" && n != "execveat" {
+				traced = append(traced, n)
+			}
+		}
+	}
+	sort.Strings(traced)
 	allow := append([]string{"fork", "vfork", "clone", "rt_sigprocmask"}, probeBaseAllow...)
 	def := libseccomp.ActionKill
 	if c.Default == "trace" {
@@ -260,7 +359,7 @@ func c03Run(c c03Case, root string, rec *vh.Recorder) error {
 
 	renameK := map[int]bool{}
 	for _, f := range flat {
-		if f.op.Kind == "rename" {
+		if f.op.Kind == "rename" || f.op.Kind == "link" {
 			renameK[f.op.K] = true
 		}
 	}
@@ -294,7 +393,7 @@ func c03Run(c c03Case, root string, rec *vh.Recorder) error {
 
 	decisionOf := func(f c03Flat) (int, bool) { // decision, isTracedOrOther
 		switch f.op.Kind {
-		case "rename":
+		case "rename", "link":
 			// two paths, two verdicts: the strictest wins (any kill => kill, else any ban => ban)
 			a, b := c.Decide[f.op.K], 0
 			if f.op.K < len(c.Src) {
@@ -307,7 +406,7 @@ func c03Run(c c03Case, root string, rec *vh.Recorder) error {
 				return 1, true
 			}
 			return 0, true
-		case "mkdir", "create", "unlink", "stat", "readlink":
+		case "mkdir", "create", "unlink", "stat", "readlink", "chmod", "symlink", "exec":
 			return c.Decide[f.op.K], true
 		case "other":
 			if c.Default == "kill" {
@@ -334,7 +433,7 @@ func c03Run(c c03Case, root string, rec *vh.Recorder) error {
 		}
 	}
 	desc := func(f c03Flat) string {
-		return fmt.Sprintf("op %s k=%d name=%s proc=%d thread=%v (script #%d)", f.op.Kind, f.op.K, f.op.Name, f.proc, f.thread, f.idx)
+		return fmt.Sprintf("op %s(%s) k=%d name=%s proc=%d thread=%v (script #%d)", f.op.Kind, c03Sys(f.op), f.op.K, f.op.Name, f.proc, f.thread, f.idx)
 	}
 
 	// 1. per-op checks
@@ -357,7 +456,7 @@ func c03Run(c c03Case, root string, rec *vh.Recorder) error {
 			}
 		}
 		switch f.op.Kind {
-		case "mkdir", "create":
+		case "mkdir", "create", "symlink":
 			if (d != 0 || after) && exists(m) {
 				return vh.Violf("C03:effect-despite-verdict", "%s: decision %d afterKill=%v but %s exists", desc(f), d, after, m)
 			}
@@ -389,6 +488,35 @@ func c03Run(c c03Case, root string, rec *vh.Recorder) error {
 					return vh.Violf("C03:allowed-call-modified", "%s: allowed, returned %d, src=%v dst=%v", desc(f), ret, exists(p), exists(m))
 				}
 				anyAllowEffect = true
+			}
+		case "link":
+			if (d != 0 || after) && exists(m) {
+				return vh.Violf("C03:effect-despite-verdict", "%s: decision %d afterKill=%v but the link was made", desc(f), d, after)
+			}
+			if d == 0 && have && !after {
+				if ret != 0 || !exists(p) || !exists(m) {
+					return vh.Violf("C03:allowed-call-modified", "%s: allowed, returned %d, src=%v dst=%v", desc(f), ret, exists(p), exists(m))
+				}
+				anyAllowEffect = true
+			}
+		case "chmod":
+			fi, err := os.Lstat(filepath.Join(root, p))
+			if err != nil {
+				return vh.Infraf("chmod target vanished: %v", err)
+			}
+			changed := fi.Mode().Perm() == 0o600
+			if (d != 0 || after) && changed {
+				return vh.Violf("C03:effect-despite-verdict", "%s: decision %d afterKill=%v but the mode was changed", desc(f), d, after)
+			}
+			if d == 0 && have && !after {
+				if ret != 0 || !changed {
+					return vh.Violf("C03:allowed-call-modified", "%s: allowed, returned %d, mode now %o", desc(f), ret, fi.Mode().Perm())
+				}
+				anyAllowEffect = true
+			}
+		case "exec":
+			if d == 0 && have && !after && ret != -int64(syscall.ENOENT) {
+				return vh.Violf("C03:allowed-call-modified", "%s: allowed exec of a missing file returned %d want %d", desc(f), ret, -int64(syscall.ENOENT))
 			}
 		case "stat":
 			if d == 0 && have && !after {
@@ -521,6 +649,11 @@ func c03Run(c c03Case, root string, rec *vh.Recorder) error {
 	for _, f := range flat {
 		if f.op.Kind == "thread" || f.op.Kind == "vfork" || f.op.Kind == "fork" {
 			classes = append(classes, "spawn="+f.op.Kind)
+		}
+		if _, ok := c03Forms[f.op.Kind]; ok {
+			if d, _ := decisionOf(f); d >= 0 && d <= 2 {
+				classes = append(classes, "sys="+c03Sys(f.op)+"/"+[]string{"allow", "ban", "kill"}[d])
+			}
 		}
 	}
 	rec.Case(c, nt, dedup(classes)...)
